@@ -9,6 +9,7 @@ import numpy as _np
 
 from . import terms as T
 from .sym import Sym, SymBool, UNINIT, _is_num
+from .facade_ma import MaskedObj, MA
 
 
 def _is_int_dtype(dtype):
@@ -53,6 +54,8 @@ def _elementwise(f_sym, f_float):
             return f_sym(x)
         if x is UNINIT:
             return UNINIT
+        if isinstance(x, MaskedObj):
+            return x.map(g)
         if isinstance(x, _np.ndarray) and x.dtype == object:
             out = _np.empty(x.shape, dtype=object)
             it = _np.nditer(x, flags=['refs_ok', 'multi_index'])
@@ -98,6 +101,8 @@ def _predicate(f_sym, f_np, f_py):
     def g(x, *a, **k):
         if isinstance(x, Sym) or x is UNINIT:
             return one(x)
+        if isinstance(x, MaskedObj):
+            return g(x.data)
         if isinstance(x, _np.ndarray) and x.dtype == object:
             out = _np.empty(x.shape, dtype=bool)
             for idx in _np.ndindex(*x.shape):
@@ -141,6 +146,7 @@ class NP(object):
 
     def __init__(self, random=None, pi_symbolic=True):
         self.pi = Sym(T.PI) if pi_symbolic else _np.pi
+        self.ma = MA()
         if random is not None:
             self.random = random
         self.log = _elementwise(lambda s: s.log(), _log_num)
@@ -246,4 +252,17 @@ class NP(object):
         return _np.all(a, *args, **k)
 
     def max(self, a, *args, **k):
+        if isinstance(a, MaskedObj):
+            return a.max(*args, **k)
         return _np.max(a, *args, **k)
+
+    def sum(self, a, *args, **k):
+        if isinstance(a, MaskedObj):
+            return a.sum(*args, **k)
+        return _np.sum(a, *args, **k)
+
+    def squeeze(self, a, axis=None):
+        if isinstance(a, MaskedObj):
+            return MaskedObj(_np.squeeze(a.data, axis=axis),
+                             _np.squeeze(a.mask, axis=axis))
+        return _np.squeeze(a, axis=axis)
